@@ -12,8 +12,9 @@ driver) describes the tree structurally for the oracle, which is a small indepen
 implementation of the *statement* (names as segment lists, addresses split level by level),
 not of the C++ code: it knows nothing about hashing, `hard_match` or `rtosc_match`.
 Outputs are canonical in what the statement leaves open (order of the callbacks of one table,
-d.port as seen by a default handler, trailing '/' of loc in a sub-tree callback, loc "" or "/"
-after the dispatch): see the driver's header.
+d.port as seen by a default handler and d.port after a dispatch, trailing '/' of loc in a sub-tree
+callback, loc "" or "/" after a root dispatch, d.matches and loc after a non-base dispatch): see
+the driver's header.
 """
 import os
 import subprocess
@@ -38,12 +39,18 @@ THEOREMS = [
     "Rtosc.Ports.obj_restored",
     "Rtosc.Ports.obj_restored_noloc",
     "Rtosc.Ports.history_obj_handed_down",
+    "Rtosc.Ports.history_obj_restored_noloc",
     "Rtosc.Ports.loc_in_bounds",
     "Rtosc.Ports.mkMsg_msgBuf",
     "Rtosc.Ports.cachedMk_eq",
     "Rtosc.Ports.posLoop_fuel",
     "Rtosc.Ports.clone_names",
+    "Rtosc.Ports.clone_last_source_port",
     "Rtosc.Ports.merge_no_repeats",
+    "Rtosc.Ports.merge_exact",
+    "Rtosc.Ports.merge_first_occurrence",
+    "Rtosc.Ports.merge_complete",
+    "Rtosc.Ports.merge_order",
     "Rtosc.Ports.recurs_index",
     "Rtosc.Ports.recurs_cb_index",
     "Rtosc.Ports.callback_own_match",
@@ -59,13 +66,18 @@ THEOREMS = [
     "Rtosc.Ports.inner_slash_counterexample",
     "Rtosc.Ports.default_handler_counterexample",
     "Rtosc.Ports.high_byte_name_counterexample",
+    "Rtosc.Ports.empty_name_counterexample",
 ]
 HARNESS = {"src": ["dispatch.cpp"], "deps": ["common.h"]}
 # Ports::dispatch, Port_Matcher, generate_minimal_hash, ClonePorts / MergePorts: the library's objects are linked
 RULE = ("port trees are generated per the quantifier: 1..24 names per table over {a,b,c} (shared prefixes, equal lengths, "
         "anagrams; a share over {a..h}, with digits, with 10-15 % of the characters from the wide set: upper case "
         "(also the same word in another letter case), '_-.', every other byte a literal name may have incl. 0x7f..0xff), "
-        "lengths 1..8 and a 'long key' style 7..20, a few tables of 40..80 (thorough: ..150) long names; with and without "
+        "lengths 1..8 and a 'long key' style 7..20, a few tables of 40..80 (thorough: ..150) long names, and per run "
+        "2 (thorough: 8) perfectly hashed tables of 300 / 320 / 384 ports (names <x><y><z><sss> from three letter "
+        "groups and a three-character suffix pattern, arbitrary letters: shapes for which the greedy searches of "
+        "generate_minimal_hash end collision free; at the root or below a small root table; 60 % of their messages "
+        "address a port with index >= 256); with and without "
         "':types', with '#N' (also 'name#N/' sub-tree ports, and '#N' together with further path components: "
         "'bank/slot#8', 'voice#4/level'), multi-component leaf names, trailing-'/' leaves, duplicate keys with different "
         "types, a second port matching the same messages as a sub-tree port, nesting 1..3, every table with or without "
@@ -90,6 +102,14 @@ ASSUMPTIONS = [
     "port names of the documented form restricted to literal text and #N (C05 Pat.WF without {} groups; any byte but NUL "
     "and '# { * :', also bytes >= 127); names of ports with a sub-table are one component with a trailing '/' (SNIP "
     "cuts one component)",
+    "a port name is not empty in front of its type specification (nameWf: at least one non-empty segment; hypothesis "
+    "of every dispatch theorem through PPorts.WF).  A port whose whole name is a type specification (':i') is "
+    "addressed by an empty address, which rtosc_argument_string excludes (assert(msg && *msg)), so such names are "
+    "not meaningful and not generated; for them the unchanged library does depend on the location buffer: "
+    "generate_minimal_hash splits key and type specification with `idx > 0`, the name ':i' stays its own key and "
+    "the table {':i','b'} answers '/' ,i without location buffer only (theorem empty_name_counterexample; the "
+    "model mirrors it, op line `D T0[L3a69,L62] 256+0 B2f:69 ...` agrees with the compiled code; same class as "
+    "C09's LeavesNamed)",
     "addresses and type strings are C strings; digit runs of the address below 2^31 (as in C05)",
     "the location buffer holds '/' + address + NUL (dispatch never compares with loc_size; theorem loc_in_bounds)",
     "callbacks of ports with a sub-table behave like rRecurCb (data.obj = child; SNIP; child.dispatch), the others do "
@@ -145,8 +165,10 @@ LEVEL_NOTE = ("Open: (1) inside the MAY region (a type string that extends a lis
               "compared and checked by the oracle); it assumes sub-tree port names without type specification and "
               "non-NULL pointer members: rRecurpCb / rRecurspCb with a NULL pointer are neither modelled nor exercised; "
               "(3) which callback object a "
-              "ClonePorts / MergePorts port carries is checked on the implementation only (clone_names / merge_no_repeats "
-              "are about names); (4) loc_in_bounds assumes room for '/' + address + NUL: the code never compares with "
+              "ClonePorts / MergePorts port carries is checked on the implementation only; the Lean theorems fix the "
+              "port (name and sub-table): merge_exact / merge_first_occurrence / merge_complete / merge_order (all "
+              "ports of all tables in order, the first of equal names kept) and clone_last_source_port (the i-th port "
+              "is the last source port with the i-th listed name); (4) loc_in_bounds assumes room for '/' + address + NUL: the code never compares with "
               "loc_size (no finding raised: documented as 'not properly handled yet' in ports.cpp); (5) isLeaf of a log "
               "entry is set by the model from the table (port without sub-table / default handler)")
 TECHNIQUE = "Lean 4 model + proofs; correspondence against ASan/UBSan build; independent spec oracle; loc/no-loc differential"
@@ -465,9 +487,9 @@ def check_table(t, tpath, objs, rest, off, locp, tags, pool, withloc, counts, su
 
 
 def check_msg(tree, tok, res, sugar, state):
-    """`state`: what the RtData objects held before this dispatch — {"m": d.matches of the one with location
-    buffer, "pL" / "pN": d.port ("-" none, "*" not printed)}; updated to what this dispatch left behind.  (d.obj
-    is the caller's root object: a dispatch that leaves anything else behind is reported here.)"""
+    """`state`: unused (nothing the RtData objects hold before a dispatch enters the verdict: d.obj is the caller's
+    root object — a dispatch that leaves anything else behind is reported here —, d.matches is reset by a root
+    dispatch, d.port is set for every callback)"""
     base = tok[0] == "B"
     a, t = tok[1:].split(":")
     addr, tags = unhx(a), unhx(t)
@@ -482,19 +504,18 @@ def check_msg(tree, tok, res, sugar, state):
     objL = tail[oi + 1:]
     tail = tail[:oi]
     mi, pi, li = tail.index("m"), tail.index("p"), tail.rindex("l")
-    matches = int(tail[mi + 1:pi])
-    portL = tail[pi + 1:li]
+    mtxt = tail[mi + 1:pi]
+    matches = None if mtxt == "*" else int(mtxt)
     loc_after = tail[li + 1:]
     rb2 = nl.index("]")
     logN = parse_log(nl[:rb2 + 1])
     tailN = nl[rb2 + 1:]
     oi = tailN.rindex("o")
     objN = tailN[oi + 1:]
-    portN = tailN[1:oi]
     skip = 1 if base and addr[:1] == b"/" else 0
     rest = addr[skip:]
     try:
-        for log, withloc, fport, pkey, obj_after in ((logL, True, portL, "pL", objL), (logN, False, portN, "pN", objN)):
+        for log, withloc, obj_after in ((logL, True, objL), (logN, False, objN)):
             for c in log:
                 if c["kind"] not in "PD":
                     raise Bad("a callback that does not belong to the table that is dispatched was invoked: %s" % c["text"])
@@ -505,24 +526,15 @@ def check_msg(tree, tok, res, sugar, state):
             check_table(tree, (), [], rest, skip, b"/", tags, pool, withloc, counts, sugar)
             for left in pool.values():
                 raise Bad("unexpected callback %s" % left[0]["text"])
-            if withloc:
-                # a root dispatch counts from 0, any other adds to what d.matches held
-                want = (0 if base else state["m"]) + counts["leaf"]
-                if matches != want:
-                    raise Bad("matches = %d but %d leaf callbacks were invoked%s" % (
-                        matches, counts["leaf"], "" if base or not state["m"] else " and it was %d before" % state["m"]))
-                state["m"] = matches
-            # d.port after the dispatch (printed when the invoked ports form one chain): the deepest one; what it
-            # was before when no port was invoked
-            ppaths = [c["path"] for c in log if c["kind"] == "P"]
-            if not ppaths and not sugar:
-                if state[pkey] != "*" and fport != state[pkey]:
-                    raise Bad("d.port after the dispatch is %s although no port was invoked (before: %s)" % (fport, state[pkey]))
-            elif fport not in ("*", "-"):
-                deepest = max(ppaths, key=len, default=None)
-                if deepest is None or fport != "P" + show_path(deepest):
-                    raise Bad("d.port after the dispatch is %s" % fport)
-            state[pkey] = fport
+            if withloc and base:
+                # "the match count after a root dispatch equals the number of leaf callbacks invoked" (a root
+                # dispatch counts from 0, whatever the RtData held; of other dispatches the statement says nothing)
+                if matches is None:
+                    raise Bad("d.matches of a root dispatch not printed")
+                if matches != counts["leaf"]:
+                    raise Bad("matches = %d but %d leaf callbacks were invoked" % (matches, counts["leaf"]))
+            # d.port after the dispatch is not part of the statement (each callback sees its own port: checked
+            # per callback above)
             # the object the caller supplied is the one the root table's callbacks are handed, in this dispatch and
             # in the next one made with the same RtData
             if obj_after != "r":
@@ -534,7 +546,7 @@ def check_msg(tree, tok, res, sugar, state):
         if kL != kN:
             raise Bad("callbacks with location buffer %s differ from those without %s" % (
                 [c["kind"] + show_path(c["path"]) for c in logL], [c["kind"] + show_path(c["path"]) for c in logN]))
-        if loc_after != "ok":
+        if base and loc_after != "ok":
             raise Bad("loc after the dispatch is %r (neither restored to \"/\" nor emptied)" % unhx(loc_after))
     except Bad as e:
         return "%s [message %s %r tags %r]" % (e, "base" if base else "sub", addr, tags)
@@ -542,7 +554,7 @@ def check_msg(tree, tok, res, sugar, state):
 
 
 def fresh_state():
-    return {"m": 0, "pL": "-", "pN": "-"}
+    return {}
 
 
 def kept(op_words):
@@ -957,6 +969,77 @@ def gen_msgs(rng, t, nmsg, stats):
     return msgs
 
 
+# --------------------------------------------------------------------------------------
+# perfectly hashed tables with more than 256 ports
+# --------------------------------------------------------------------------------------
+# Whether the greedy searches of generate_minimal_hash (find_pos, find_assoc) end collision free depends on the
+# whole set of names and on their order, but only on which characters are EQUAL, never on their values: the
+# shapes below (names <x><y><z><sss>, x / y / z from three disjoint letter groups of the given sizes, sss one of
+# pzz qzz qqz qqq pattern-wise; "so" = the suffix is the outermost loop, "n" = the innermost) get a perfect hash
+# (checked with the model: op `H`), with any letters.  The hash value of a name is an index into `remap`, whose
+# entries must be able to name every port: ports with index >= 256 are the ones a narrow entry type loses.
+BIG_SHAPES = [((4, 4, 6, 4), "so"), ((4, 4, 5, 4), "n"), ((3, 5, 5, 4), "n")]
+BIG_LETTERS = bytes(range(97, 123)) + UPPER + PUNCT
+
+
+def big_hashed_table(rng, shape=None):
+    (g1, g2, g3, ns), order = shape or rng.choice(BIG_SHAPES)
+    letters = bytearray(BIG_LETTERS)
+    rng.shuffle(letters)
+    l1, l2, l3 = letters[:g1], letters[g1:g1 + g2], letters[g1 + g2:g1 + g2 + g3]
+    z, q = letters[g1 + g2 + g3], letters[g1 + g2 + g3 + 1]
+    sufs = [bytes([z, z, z]), bytes([q, z, z]), bytes([q, q, z]), bytes([q, q, q])][:ns]
+    if order == "so":
+        words = [bytes([a, b, c]) + sf for sf in sufs for a in l1 for b in l2 for c in l3]
+    else:
+        words = [bytes([a, b, c]) + sf for a in l1 for b in l2 for c in l3 for sf in sufs]
+    ptypes = rng.choice([0.0, 0.0, 0.1])
+    ports = [(([("L", w)], False, rand_types(rng) if rng.random() < ptypes else None), None) for w in words]
+    return {"dflt": rng.random() < 0.3, "ports": ports}
+
+
+def big_msgs(rng, t, nmsg, stats):
+    """mostly exact addresses of ports with a high index, some one character off"""
+    n = len(t["ports"])
+    msgs = []
+    for _ in range(nmsg):
+        r = rng.random()
+        k = rng.randrange(256, n) if r < 0.6 else rng.randrange(n)
+        name = t["ports"][k][0]
+        a = name[0][0][1]
+        kind = "exact"
+        if rng.random() < 0.25:
+            kind = rng.choice(["append", "remove", "change", "case", "insert"])
+            a = mutate(rng, a, kind)
+        if b"\0" in a or not idx_ok(a):
+            continue
+        tk = rng.choice(["admitted", "admitted", "admitted", "other", "extension"])
+        msgs.append("B" + hx(b"/" + a) + ":" + hx(pick_tags(rng, name[2], tk)))
+        stats["msg_kind"][kind] = stats["msg_kind"].get(kind, 0) + 1
+        stats["tag_kind"][tk] = stats["tag_kind"].get(tk, 0) + 1
+    return msgs
+
+
+def big_op_line(rng, stats, shape=None):
+    t = big_hashed_table(rng, shape)
+    if rng.random() < 0.3:
+        # below a small root table
+        root = gen_table(rng, 1, 4, {"types": False})
+        root["build"] = None
+        taken = set(render(nm) for nm, _ in root["ports"])
+        if b"big/" not in taken:
+            root["ports"].insert(rng.randrange(len(root["ports"]) + 1), (([("L", b"big")], True, None), t))
+            msgs = []
+            for m in big_msgs(rng, t, 12, stats):
+                a, tg = m[1:].split(":")
+                msgs.append("B" + hx(b"/big" + unhx(a)) + ":" + tg)
+            keep = "+k" if rng.random() < KEEP_SHARE else ""
+            return "D %s %d+%d%s %s %s" % (table_token(root), 64, slack_for(root), keep, ";".join(msgs), spec_token(root)), t
+    msgs = big_msgs(rng, t, 12, stats)
+    keep = "+k" if rng.random() < KEEP_SHARE else ""
+    return "D %s %d+%d%s %s %s" % (table_token(t), 64, slack_for(t), keep, ";".join(msgs), spec_token(t)), t
+
+
 def tree_depth(t):
     return 1 + max([tree_depth(c) for _, c in t["ports"] if c is not None] or [0])
 
@@ -1006,16 +1089,16 @@ def sugar_tree():
                                      (_nm(b"detunevalue"), None), (_nm(b"x"), None)]}
     mid = {"dflt": False, "ports": [
         (_nm(b"one", sub=True), leaf), (_nm(b"one", types=[b""]), None),       # rRecur(one)
-        (_nm(b"arr", sub=True, n=3), leaf),                                     # rRecurs(arr, 3)
+        (_nm(b"op2s", sub=True, n=3), leaf),                                    # rRecurs(op2s, 3)
         (_nm(b"ptr", sub=True), leaf),                                          # rRecurp(ptr)
-        (_nm(b"parr", sub=True, n=2), leaf),                                    # rRecursp(parr, 2)
+        (_nm(b"lfo1p", sub=True, n=2), leaf),                                   # rRecursp(lfo1p, 2)
         (_nm(b"self"), None)]}
     top = {"dflt": False, "ports": [
         (_nm(b"mid", sub=True), mid), (_nm(b"mid", types=[b""]), None),         # rRecur(mid)
         (_nm(b"mids", sub=True, n=4), mid),                                     # rRecurs(mids, 4)
         (_nm(b"pm", sub=True), mid),                                            # rRecurp(pm)
-        (_nm(b"pms", sub=True, n=2), mid),                                      # rRecursp(pms, 2)
-        (_nm(b"leafs", sub=True, n=12), leaf),                                  # rRecurs(leafs, 12)
+        (_nm(b"pm2s", sub=True, n=2), mid),                                     # rRecursp(pm2s, 2)
+        (_nm(b"v9", sub=True, n=12), leaf),                                     # rRecurs(v9, 12)
         (_nm(b"top", types=[b""]), None)]}
     return top
 
@@ -1024,10 +1107,12 @@ def generate(rng, tier, stats):
     ntab = 5200 if tier == "quick" else 100000
     nbig = 24 if tier == "quick" else 400
     nsugar = 260 if tier == "quick" else 6000
+    nhuge = 2 if tier == "quick" else 8        # the model's find_assoc takes ~10 s on such a table
     stats.update({"via_clone_or_merge": 0, "tables": 0, "size": {}, "depth": {}, "dflt": 0, "msg_kind": {}, "tag_kind": {},
                   "with_enum": 0, "with_multi": 0, "with_enum_and_inner_slash": 0, "with_types": 0, "with_wide_chars": 0,
                   "with_high_bytes": 0, "long_keys": 0, "slack": {}, "sugar_lines": 0, "big_tables": 0,
-                  "hashable_tables": 0, "all_tables": 0, "messages": 0, "histories_on_one_RtData": 0})
+                  "hashable_tables": 0, "all_tables": 0, "messages": 0, "histories_on_one_RtData": 0,
+                  "hashed_tables_over_256_ports": {}})
     ops = []
     st = sugar_tree()
     for k in range(ntab + nbig):
@@ -1069,6 +1154,16 @@ def generate(rng, tier, stats):
         stats["slack"][sl] = stats["slack"].get(sl, 0) + 1
         stats["messages"] += op.split()[3].count(";") + 1
         stats["histories_on_one_RtData"] += 1 if kept(op.split()) else 0
+    shapes = list(BIG_SHAPES)
+    rng.shuffle(shapes)
+    for k in range(nhuge):
+        op, t = big_op_line(rng, stats, shapes[k % len(shapes)])
+        ops.append(op)
+        n = str(len(t["ports"]))
+        stats["hashed_tables_over_256_ports"][n] = stats["hashed_tables_over_256_ports"].get(n, 0) + 1
+        stats["tables"] += 1
+        stats["messages"] += op.split()[3].count(";") + 1
+        stats["histories_on_one_RtData"] += 1 if kept(op.split()) else 0
     for k in range(nsugar):
         op = op_line(rng, st, 14, stats, "R")
         ops.append(op)
@@ -1100,7 +1195,9 @@ def neighbours(op, rng):
         return
     tree, _ = parse_spec(w[4])
     st = {"msg_kind": {}, "tag_kind": {}}
-    for _ in range(40):
+    # (a table of hundreds of hashed ports costs the model ~10 s per line)
+    huge = any(len(x["ports"]) > 256 for x in tree_tables(tree))
+    for _ in range(3 if huge else 40):
         msgs = gen_msgs(rng, tree, 14, st) or ["B2f61:-"]
         need = max(len(unhx(m[1:].split(":")[0])) for m in msgs) + 2
         yield "%s %s %d+%s %s %s" % (w[0], w[1], max(need, 64), "+".join(w[2].split("+")[1:]), ";".join(msgs), w[4])
